@@ -254,14 +254,20 @@ Fixpoint reg_steps {A} (f : A -> state -> res) (l : list A) (t : state) : state 
   | x :: r => match f x t with ROk t' => reg_steps f r t' | RErr e => (t, Some e) end
   end.
 Definition is_chain_entry (p : N * kind * list N) : bool := kind_eqb (snd (fst p)) CHAINED.
+(* a chain is registered, then its children are set: two separate, separately persistent steps *)
+Definition chain_step (o : N * option (list N)) (t : state) : res :=
+  match snd o with
+  | None => ROk (reg_coll (fst o) CHAINED t)
+  | Some ch => set_chain (fst o) ch t
+  end.
 Definition register (b : bundle) (t : state) : state * option err :=
   match reg_steps reg_type (b_types b) t with
   | (t1, Some e) => (t1, Some e)
   | (t1, None) =>
     let t2 := fold_left (fun t p => reg_coll (fst (fst p)) (snd (fst p)) t)
                         (filter (fun p => negb (is_chain_entry p)) (b_colls b)) t1 in
-    reg_steps (fun p t => set_chain (fst (fst p)) (snd p) (reg_coll (fst (fst p)) CHAINED t))
-              (filter is_chain_entry (b_colls b)) t2
+    reg_steps chain_step (flat_map (fun p => [(fst (fst p), None); (fst (fst p), Some (snd p))])
+                                   (filter is_chain_entry (b_colls b))) t2
   end.
 
 Definition bundle_ids (b : bundle) : list N := map (fun p => d_id (fst p)) (b_dsets b).
